@@ -359,6 +359,16 @@ static Plan gen_poison(Rng& r, int tier, std::string const&)
     if (p.calls.size() < 2) p.calls.push_back(20 + r.below(100));
     if (p.fk == F_ZERO) p.fk = F_POLY;
     p.cbk = 1;
+    if (r.chance(0.25))
+    {
+        // the built-in callback with a target precision: the stop decision is part of the run that
+        // must not depend on whether the poisoned calls returned non-finite values or zero
+        p.cbk = 0;
+        p.mode = 0;
+        static ld const targets[] = {0.5L, 0.2L, 0.1L, 0.03L, 0.01L};
+        p.target = r.pick(targets);
+        for (auto& c : p.calls) c = std::max<u64>(c, 2);
+    }
 
     u64 mask = 0;
     switch (r.below(5))
@@ -525,8 +535,14 @@ static Plan gen_grid(Rng& r, int tier, std::string const&)
     for (u64 i = 0; i != n; ++i) p.calls.push_back(20 + r.below(o.max_calls));
     if (p.dims > 8)
     {
-        // many dimensions: keep the run short
+        // many dimensions: keep the run short; float and very many dimensions: one iteration on the
+        // uniform grid (see gen_world)
         if (p.calls.size() > 4) p.calls.resize(4);
+        if (p.nt == NT_F || p.dims > 24)
+        {
+            p.calls.resize(1);
+            p.grid = 0;
+        }
         for (auto& c : p.calls) c = 2 + c % 40;
     }
     static int const fk[] = {F_PEAK, F_PEAK, F_SELECT, F_LADDER, F_SPARSE, F_ZERO, F_POLY};
